@@ -162,6 +162,7 @@ class EFLRItem:
             raise RuntimeError(f"Cannot set DLIS Attribute '{key}'. Did you mean setting '{key}.value' instead?")
 
         if key == 'name':
+            value = validate_string(value)  # a name given later is held to the same rules as one given at creation
             self.__dict__.pop('obname', None)  # the cached OBNAME bytes contain the name
             if '_copy_number' in self.__dict__ and value != self.__dict__.get('name'):
                 # renamed: the copy number must tell this item from the other items of the set which have the new name
